@@ -146,6 +146,10 @@ fn lengths(ctx: &Ctx) -> (Vec<usize>, Vec<usize>, usize) {
         k += 1;
     }
     code.push(max_flash);
+    // beyond the device table: around the 1 MiB limit of segment addressing and one image of 2 MiB + 5
+    for l in [(1usize << 20) - 1, 1 << 20, (1 << 20) + 1, (1 << 20) + 17, (1 << 20) + 65536 + 3, (2 << 20) + 5] {
+        code.push(l);
+    }
     let mut eep: Vec<usize> = (0..=600).collect();
     for d in -20i64..=20 {
         eep.push((65536 + d) as usize);
@@ -236,7 +240,7 @@ pub fn run(ctx: &Ctx) -> i32 {
     let _ = std::fs::remove_dir_all(scratch());
     fw::finish(
         ctx,
-        "write_code_hex and write_eeprom_hex called on synthetic BuildResults: every length 0..600 and every length within ±20 of each multiple of 64 KiB up to the largest flash in DEVICES (EEPROM writer: up to 64 KiB) with position-dependent contents (thorough: + lengths ≡ 0,1,15 mod 16 below 4096, 10000 random lengths, 1 MiB and 8 MiB images, full pipeline); plus 15 lengths written six times each with different contents through one BuildResult patched in place and through fresh objects, code and EEPROM writer alternating; distinct_nontrivial = distinct (writer, length) pairs",
+        "write_code_hex and write_eeprom_hex called on synthetic BuildResults: every length 0..600 and every length within ±20 of each multiple of 64 KiB up to the largest flash in DEVICES and around 1 MiB / 2 MiB (EEPROM writer: up to 64 KiB) with position-dependent contents (thorough: + lengths ≡ 0,1,15 mod 16 below 4096, 10000 random lengths, 1 MiB and 8 MiB images, full pipeline); plus 15 lengths written six times each with different contents through one BuildResult patched in place and through fresh objects, code and EEPROM writer alternating; distinct_nontrivial = distinct (writer, length) pairs",
         &["refmodel/ihex.rs strict reader (self-tested on hand-made good and bad files)"],
     )
 }
